@@ -1,28 +1,8 @@
 package main
 
 import (
-	"crypto/x509"
-
 	"github.com/pomerium/webauthn/tpm"
 )
-
-// hardwareDetailsOracle: in phase 1 the TPM hardware-detail extraction is treated as a unit that the
-// TPM attestation model consults (its own model and theorems are property C17's); the answer comes from
-// the implementation's exported function.  This is the one ask that is answered by /repo code, and only
-// for the TPM certificate-requirement clause T8–T10; C17 validates that function against its own model.
-func hardwareDetailsOracle(der []byte) (ok bool) {
-	defer func() {
-		if p := recover(); p != nil {
-			ok = false
-		}
-	}()
-	c, err := x509.ParseCertificate(der)
-	if err != nil {
-		return false
-	}
-	_, err = tpm.GetHardwareDetailsFromCertificate(c)
-	return err == nil
-}
 
 func tpmVendors() map[tpm.VendorID]tpm.Vendor { return tpm.RegisteredVendors }
 
